@@ -8,6 +8,8 @@ MODULES = ['nl.bsn', 'nl.onderwijsnummer', 'pl.nip', 'pl.regon', 'pt.nif', 'dk.c
            'ar.cuit', 'al.nipt', 'by.unp', 'cl.rut', 'cy.vat', 'ec.ci', 'ee.registrikood', 'gb.nhs', 'gb.utr', 'gt.nit', 'is_.vsk',
            'kr.brn', 'me.pib', 'mk.edb', 'nz.ird', 'pe.ruc', 'py.ruc', 'rs.pib', 'tr.vkn', 'ua.edrpou', 'uy.rut', 've.rif',
            'vn.mst', 'za.tin', 'th.pin', 'lt.pvm', 'fi.veronumero', 'eg.tn', 'ma.ice',
+           'es.nie', 'es.cif', 'gb.vat', 'fr.tva', 'ie.pps', 'cr.cpf', 'cr.cpj', 'do.rnc', 'fi.associationid', 'fr.siret', 'in_.pan',
+           'ke.pin', 'li.peid', 'md.idno', 'nl.btw', 'no.mva',
            'no.fodselsnummer', 'fi.hetu', 'ch.ssn', 'lv.pvn', 'pl.pesel', 'ee.ik']
 
 
@@ -35,6 +37,9 @@ def worker(unit, emit):
         lens.add(len(c))
         for i in range(len(c)):
             for d in '0123456789':
+                if d != c[i]:
+                    rec(c[:i] + d + c[i + 1:], 'rep@%d' % i)
+            for d in 'ABHKPWXZ|+':      # letters and symbols: check letters, type letters, characters a sloppy regex lets through
                 if d != c[i]:
                     rec(c[:i] + d + c[i + 1:], 'rep@%d' % i)
             rec(c[:i] + c[i + 1:], 'del@%d' % i)
